@@ -188,6 +188,11 @@ def _work(engine_name, tier, seed, start, end, hard_timeout):
         faulthandler.cancel_dump_traceback_later()
 
 
+STOP_AFTER_VIOLATING_RUNS = 60
+STOP_AFTER_SECONDS_WITH_VIOLATIONS = 300
+STOPPED_EARLY = []
+
+
 def run_pool(engine_name, tier, seed, total, chunk, workers, budget_s, hard_timeout=900):
     """Execute run indexes [0, total) (or until budget_s elapses; `total` may be None for open-ended
     thorough exploration).  Results are returned sorted by run index."""
@@ -201,6 +206,13 @@ def run_pool(engine_name, tier, seed, total, chunk, workers, budget_s, hard_time
         try:
             def can_submit():
                 if total is not None and next_start >= total:
+                    return False
+                # a tree that violates the property usually does so in very many runs, and each may be slow (every
+                # one is minimised later): once enough violating runs are in hand - or some are and the batch has
+                # been going for minutes - no new work is started.  Never taken on a tree where the property holds.
+                bad = sum(1 for r in results if r.get("violations"))
+                if bad >= STOP_AFTER_VIOLATING_RUNS or (bad and time.time() - t0 > STOP_AFTER_SECONDS_WITH_VIOLATIONS):
+                    STOPPED_EARLY.append((bad, len(results)))
                     return False
                 return budget_s is None or time.time() - t0 < budget_s
 
@@ -274,17 +286,20 @@ def confirm_replay(path, timeout=300):
     return p.returncode == 1 and "REPLAY-REPRODUCED" in p.stdout, p.stdout + p.stderr
 
 
-def minimise(eng, run, violation, tmpdir, max_exec=400):
-    """Greedy delta debugging: keep a candidate only while the same violation class persists."""
+def minimise(eng, run, violation, tmpdir, max_exec=400, max_seconds=75):
+    """Greedy delta debugging: keep a candidate only while the same violation class persists.  Bounded by a number
+    of executions and by wall time (a slow violating tree must still be reported well inside the command's
+    timeout; a less minimal replay file is still a replay file)."""
     target = eng.signature(violation, run)
     best_run, best_v = run, violation
     executed = 0
     improved = True
-    while improved and executed < max_exec:
+    t0 = time.time()
+    while improved and executed < max_exec and time.time() - t0 < max_seconds:
         improved = False
         for cand in eng.shrink_candidates(best_run, best_v):
             executed += 1
-            if executed > max_exec:
+            if executed > max_exec or time.time() - t0 > max_seconds:
                 break
             try:
                 res = isolated(eng.execute_run, cand, tmpdir)
@@ -311,7 +326,10 @@ def report(prop, tier, seed, eng, results, tmpdir):
     new = 0
     unconfirmed = []
     total = sum(len(r.get("violations", [])) for r in results)
+    t_report = time.time()
     for key in sorted(by_sig):
+        if new and time.time() - t_report > 240:
+            break  # enough said: at least one violation is reported and replayable
         r, v = by_sig[key]
         sig = v["signature"]
         hit = [text for ksig, text in known if ksig == sig]
